@@ -35,6 +35,8 @@ func KeySet(pattern string, n int, c *ref.Curve) []*big.Int {
 			b := core.Bytes(fmt.Sprintf("keyset-large-%d", i), 32)
 			b[0] |= 0x80
 			ks[i] = new(big.Int).SetBytes(b) // >= 2^255, i.e. above both group orders
+		case "above-q": // ids at or above the group order (legal: only their residues must be non-zero and distinct): q+3, 2q+11, q+19, ...
+			ks[i] = new(big.Int).Add(new(big.Int).Mul(c.N, big.NewInt(int64(1+i%2))), big.NewInt(int64(3+8*i)))
 		case "multiples":
 			ks[i] = big.NewInt(int64(6 * (i + 1)))
 		case "byte-boundary": // ids whose minimal byte encodings have different lengths: 254, 255, 256, 257, 65535, 65536, ...
